@@ -1,7 +1,7 @@
 (* C18 - Model equality is total, symmetric and sensitive to every coefficient.
    Only statements; every proof is `exact <lemma>`. *)
 From Coq Require Import List ZArith QArith Qcanon Bool Arith.
-From Dimod Require Import Base.Util Model.Poly Model.Equal Proofs.EqualFacts.
+From Dimod Require Import Base.Util Model.Poly Model.Equal Proofs.EqualFacts Gen.Gen_EqualCatches Proofs.EqualCatchesFacts.
 Import ListNotations.
 Open Scope Qc_scope.
 
@@ -171,3 +171,26 @@ Proof. vm_compute. reflexivity. Qed.
 Example C18_round_half_even :
   rz 0 half = true /\ rz 0 (qc 3 4) = false /\ rz 1 (qc 1 8) = false /\ rz 1 (qc 1 20) = true /\ rz 7 (qc 1 4) = false.
 Proof. repeat split; vm_compute; reflexivity. Qed.
+
+(* ---- the except clauses and default `places` of the model are those of the source
+   (translators/equal_catches.py -> Gen/Gen_EqualCatches.v) ---- *)
+Theorem C18_gen_is_equal_catches :
+  forall a, catches_of a = match e_cls a with EB _ => gen_catches_is_equal_bqm | EQ => gen_catches_is_equal_qm end.
+Proof. exact catches_of_gen. Qed.
+Print Assumptions C18_gen_is_equal_catches.
+
+Theorem C18_gen_view_catches_as_qm : gen_catches_is_equal_view = gen_catches_is_equal_qm.
+Proof. exact catches_view_is_qm. Qed.
+Print Assumptions C18_gen_view_catches_as_qm.
+
+Theorem C18_gen_is_almost_equal_catches :
+  almost_catches = gen_catches_is_almost_equal_bqm /\ almost_catches = gen_catches_is_almost_equal_qm
+  /\ almost_catches = gen_catches_is_almost_equal_view.
+Proof. exact almost_catches_gen. Qed.
+Print Assumptions C18_gen_is_almost_equal_catches.
+
+Theorem C18_gen_default_places :
+  gen_default_places_bqm = 7%nat /\ gen_default_places_qm = 7%nat /\ gen_default_places_view = 7%nat
+  /\ gen_default_places_cqm = 7%nat.
+Proof. exact default_places_gen. Qed.
+Print Assumptions C18_gen_default_places.
